@@ -351,6 +351,17 @@ Proof. exact KV.Proofs.ConcatIdentP.dummy_table_is_model. Qed.
 Print Assumptions C19_dummy_table.
 
 (* ------------------------------------------------------------------ select(subarray=s, spw=w, ...) *)
+(* what the translator finds in DataSet.select: spw= / subarray= default to the current ones; an index beyond the
+   lists raises IndexError; switching resets the time mask to (spw_index == spw) & (subarray_index == subarray) and the
+   channel / product masks to the size of THAT window / subarray; select() reads no product list or channel grid
+   other than subarrays[self.subarray] / spectral_windows[self.spw] *)
+Theorem C19_select_sw_source :
+  select_time_reset_sensors = ["Observation/spw_index"; "Observation/subarray_index"]%string /\
+  select_reads_only_current_subarray = true /\ select_reads_only_current_spw = true /\
+  select_sw_out_of_range_raises_indexerror = true.
+Proof. exact select_sw_constants_ok. Qed.
+Print Assumptions C19_select_sw_source.
+
 (* select(subarray=s, spw=w) keeps exactly the dumps whose subarray is the s-th and whose spectral window is the
    w-th of the merged lists (s = w = 0: the default selection of C19_concat_expand) *)
 Theorem C19_keep_sw : forall input ps m s w,
